@@ -220,6 +220,28 @@ def run_c14(chk):
                               "document differs from the same query on a fresh parse of its serialization", q))
                 break
     chk.cov["namespace_stream"] = "%d histories, %d successful edits" % (len(nscases), ns_ok)
+    # the same kind of histories on documents read WITH text expansion (the view xq / xe use; character data, CDATA and
+    # references are one merged node): monitors only
+    xcases = histories(rng, 600 if thorough else 200, 10, 0.1)
+    ximpl = lib.run_lines(lib.build_harness(), [lib.req("domx", t, QUERIES + ";//text();//node()", *ops) for t, ops in xcases],
+                          timeout=900, per_line_resume=True)
+    x_ok = 0
+    for (t, ops), a in zip(xcases, ximpl):
+        for i, x in enumerate(D.split_records(a)):
+            good = i > 0 and x["status"].startswith("ok")
+            x_ok += good
+            chk.count(["expanded", t] + ops[:i], nontrivial=good)
+            v = x["flags"].get("ord")
+            q = x["flags"].get("q")
+            if v is not None and v != "ok":
+                mfail.append((t, ops, i, "(text expansion on) document-order keys are not non-zero / distinct / increasing along the walk",
+                              v))
+                break
+            if q is not None and q not in ("ok", "skip") and "SIDE-EFFECT" not in q:
+                mfail.append((t, ops, i, "(text expansion on) a query on the edited document differs from the same query on a fresh "
+                              "parse of its serialization", q))
+                break
+    chk.cov["expanded_text_stream"] = "%d histories, %d successful edits" % (len(xcases), x_ok)
     chk.cov["queries_per_step"] = QUERIES.split(";")
     chk.cov["rule"] = ("%d edit histories; after EVERY step: order() of every attached node along the pre-order walk element -> attributes "
                        "-> attribute value items -> children is non-zero and strictly increasing, every detached node reports 0; and %d "
